@@ -55,6 +55,11 @@ def handle (s : St) (ws : List String) : IO St := do
     let l := (List.range (2 ^ aw.toNat!)).map fun a =>
       match decodeFuel f m.items a with | some r => toString r | none => "-"
     IO.println ("decodeall " ++ " ".intercalate l); return s
+  | ["decode", h, a] =>
+    let m := getM s h.toNat!
+    IO.println ("decode " ++ (match decodeFuel (Tree.depthList m.items + 1) m.items a.toNat! with
+      | some r => toString r | none => "-"))
+    return s
   | ["find", h, rid] =>
     let m := getM s h.toNat!
     IO.println (match findFuel (Tree.depthList m.items + 1) m.dw m.items (orderOf m) rid.toNat! with
